@@ -161,8 +161,11 @@ def replay_schedules(ctx, scheds, tiny, pool_events, pool_meta, rowintern, order
         kw = {"mutation_rate": inp.mu, "population_size": inp.Ne}
         method = "inside_outside" if (tried % 2 == 0) else "maximization"
         base, keys0, _, cache0 = mc.pool_call(inp.ts, method, None, **kw)
-        if not base.ok or len(keys0) != K:
-            raise MachineryError(f"tiny input for K={K} has {len(keys0)} keys / base failed: {base.exc}")
+        if not base.ok:
+            ctx.count("pool_sequential_call_failed")  # a crash on a valid input is C35's business
+            continue
+        if len(keys0) != K:
+            raise MachineryError(f"tiny input for K={K} has {len(keys0)} cache keys")
         d = schedule_delays(K, W, order)
         if min(d.values()) <= 0:
             raise MachineryError(f"LikPool emitted an infeasible schedule {s}")
@@ -292,6 +295,8 @@ def run(ctx):
     collect_fresh(ctx, procs, jobs, labels, first, events, metas, intern)
 
     mc.lap("children")
+    if not pool_events:
+        raise MachineryError("no pool run was observed (vacuous)")
     rej = mc.validate_pool(ctx, pool_events)
     for tid, clause in rej.items():
         ev = next(e for e in pool_events if e["tid"] == tid)
